@@ -53,6 +53,15 @@ Definition spec_C19 (i : winput) (o : obs_C19) : bool :=
   | WSub _ _ _ => true                   (* sub_ontology ends in build_minimal: no defaults *)
   | WBulk _ _ _ _ => true                (* generated for C03 only *)
   | WMany _ _ _ _ => true                (* generated for C10 only; build_minimal *)
+  | WCustom _ _ _ =>                     (* user-chosen groups: the queries follow the groups that are set *)
+      match o with
+      | Ok (ts, cat, mo) =>
+          forallb (fun t =>
+            (s_ismod t =? boolN (existsb (self_or_anc t) mo))
+            && list_eqb (s_cats t) (filter (self_or_anc t) cat)
+            && ascb (s_cats t)) ts
+      | _ => true
+      end
   | WBuilder s =>
       match builder_defaults (fst i) with
       | None => true                       (* build_minimal: no defaults requested *)
